@@ -13,7 +13,7 @@ from ..core import Prop, Result
 from ..simfs import SimFS, Policy
 
 READ_INPUTS = ["ok", "ok_wrapped", "ok_big", "nosections", "hdrerr", "reshape", "decode", "lidar", "empty",
-               "missing", "bom", "one_line", "utf16", "latin1", "textcol", "hdrerr_late", "lidar_bom", "decode_late"]
+               "missing", "bom", "one_line", "utf16", "latin1", "textcol", "hdrerr_late", "lidar_bom", "decode_late", "directory"]
 READ_KW = [
     {},
     {"engine": "normal"},
@@ -198,7 +198,9 @@ class C20(Prop):
         exc = None
         with fs:
             if call.startswith("read"):
-                data = read_input_bytes(kind, sc["n"], sc["m"])
+                data = read_input_bytes(kind, sc["n"], sc["m"]) if kind != "directory" else None
+                if kind == "directory":
+                    fs.dirs.add(IN)                  # the path names a directory
                 if data is not None:
                     fs.store(IN, data)
                 src = pathlib.Path(IN) if call == "read_path" else IN
